@@ -432,10 +432,13 @@ def run(ctx):
         for P_ in (1, 2, 3):
             for sc in (-33, 20):
                 c = None
-                for _ in range(200):
-                    c = make_case(rng, ctx.tier)
-                    if c['op'] == kind and c['P'] == min(P_, 2) and c['D'] >= 2 and 'out_seed' not in c:
+                for _ in range(400):
+                    c_ = make_case(rng, ctx.tier)
+                    if c_['op'] == kind and c_['P'] == min(P_, 2) and c_['D'] >= 2 and 'out_seed' not in c_:
+                        c = c_
                         break
+                if c is None:
+                    continue                     # (no suitable case drawn this time)
                 c['scale_log2'] = sc
                 if P_ == 3:
                     x_ = np.array(c['x'])
